@@ -982,6 +982,11 @@ func (w *Writer) needsParens(child ir.ExpressionHandle) bool {
 		// ArrayLength expands to "1 + ..." which contains a binary operator.
 		// Matches Rust naga: ArrayLength uses is_scoped wrapping.
 		return true
+	case ir.ExprSelect:
+		// A select with a scalar condition is written as a ternary (c ? a : b), which
+		// binds looser than every binary operator. The vector form is a function call.
+		_, isVec := w.getExpressionType(k.Condition).(ir.VectorType)
+		return !isVec
 	default:
 		return false
 	}
